@@ -226,6 +226,11 @@ pub(super) trait DialectHandler: Any + Debug {
         false
     }
 
+    /// Whether a recursive CTE is announced with the RECURSIVE keyword
+    fn with_recursive_keyword(&self) -> bool {
+        true
+    }
+
     /// Whether OFFSET is only accepted as a part of a LIMIT clause
     fn offset_requires_limit(&self) -> bool {
         false
@@ -434,6 +439,11 @@ impl DialectHandler for SQLiteDialect {
 }
 
 impl DialectHandler for MsSqlDialect {
+    // T-SQL has no RECURSIVE keyword: a CTE may refer to itself as it is
+    fn with_recursive_keyword(&self) -> bool {
+        false
+    }
+
     fn use_fetch(&self) -> bool {
         true
     }
